@@ -28,18 +28,21 @@ type g6Codec struct {
 	encode   func(graph.Graph) string
 	valid    func(string) bool
 	open     func(string) graph.Graph
+	gostr    func(string) string
 }
 
 var g6Undirected = &g6Codec{scen: "graph6",
 	encode: func(g graph.Graph) string { return string(graph6.Encode(g)) },
 	valid:  func(s string) bool { return graph6.IsValid(graph6.Graph(s)) },
 	open:   func(s string) graph.Graph { return graph6.Graph(s) },
+	gostr:  func(s string) string { return graph6.Graph(s).GoString() },
 }
 
 var g6Directed = &g6Codec{scen: "digraph6", directed: true,
 	encode: func(g graph.Graph) string { return string(digraph6.Encode(g)) },
 	valid:  func(s string) bool { return digraph6.IsValid(digraph6.Graph(s)) },
 	open:   func(s string) graph.Graph { return digraph6.Graph(s) },
+	gostr:  func(s string) string { return digraph6.Graph(s).GoString() },
 }
 
 func init() {
@@ -373,6 +376,32 @@ func g6CheckValid(c *Ctx, cd *g6Codec, arm, what, s string, n int, ref func(u, v
 	bad := func(o, format string, a ...interface{}) *Violation {
 		return viol(cd.scen+"/Graph/"+arm+"-"+o, "%s%s: %s", what, g6Show(s), fmt.Sprintf(format, a...))
 	}
+	// the %#v form, "order:bit vector" (as the package's tests spell it)
+	if gs, p := g6GoString(cd, s); p != nil {
+		return bad("gostring", "GoString panics: %v", p), nil
+	} else if n <= 12 {
+		var bits []byte
+		if cd.directed {
+			for u := 0; u < n; u++ {
+				for v := 0; v < n; v++ {
+					bits = append(bits, "01"[g6b2i(ref(u, v))])
+				}
+			}
+		} else {
+			for v := 1; v < n; v++ {
+				for u := 0; u < v; u++ {
+					bits = append(bits, "01"[g6b2i(ref(u, v))])
+				}
+			}
+		}
+		if len(bits) == 0 {
+			bits = []byte("0")
+		}
+		c.Oracle(arm + "-gostring")
+		if want := fmt.Sprintf("%d:%s", n, bits); gs != want {
+			return bad("gostring", "GoString() = %q, the adjacency bits read by the format description give %q", gs, want), nil
+		}
+	}
 	c.Oracle(arm + "-nodes")
 	ids, why := g6Drain(g.Nodes(), n+8)
 	if why != "" {
@@ -497,12 +526,28 @@ func g6CheckValid(c *Ctx, cd *g6Codec, arm, what, s string, n int, ref func(u, v
 }
 
 // g6CheckNull checks that a string IsValid rejects behaves as the null graph.
+func g6b2i(b bool) int {
+	if b {
+		return 1
+	}
+	return 0
+}
+
+func g6GoString(cd *g6Codec, s string) (out string, panicked interface{}) {
+	defer func() { panicked = recover() }()
+	return cd.gostr(s), nil
+}
+
 func g6CheckNull(c *Ctx, cd *g6Codec, what, s string, n0 int) *Violation {
 	g := cd.open(s)
 	bad := func(format string, a ...interface{}) *Violation {
 		return viol(cd.scen+"/Graph/invalid-not-null-graph", "%s%s is not valid, documented to behave as the null graph: %s", what, g6Show(s), fmt.Sprintf(format, a...))
 	}
 	c.Oracle("invalid-is-null-graph")
+	// the %#v form of an invalid string: anything but a panic
+	if _, p := g6GoString(cd, s); p != nil {
+		return viol(cd.scen+"/Graph/gostring-panics-for-invalid", "%s%s is not valid and its GoString method panics: %v", what, g6Show(s), p)
+	}
 	empty := func(name string, it graph.Nodes) *Violation {
 		if it == nil {
 			return bad("%s returned nil", name)
